@@ -451,11 +451,13 @@ theorem checkItem_post {R : Rules} {cfg : Cfg} {G : Seq → Prop} (hco : cfg.com
                     · -- primitive
                       split at h
                       · simp at h
-                      · simp at h
-                      · simp at h
-                      · rename_i r hr
-                        exact finish_post h hselfroot (fun _ _ => rfl) (fun _ _ _ _ => rfl) (by simp)
-                          (fun r' hr' => by simp at hr'; subst hr'; exact Good.of_justified (.prim hqs hw hr))
+                      · split at h
+                        · simp at h
+                        · simp at h
+                        · simp at h
+                        · rename_i r hr
+                          exact finish_post h hselfroot (fun _ _ => rfl) (fun _ _ _ _ => rfl) (by simp)
+                            (fun r' hr' => by simp at hr'; subst hr'; exact Good.of_justified (.prim hqs hw hr))
                     · -- macro
                       rename_i level hkind
                       by_cases hc : levelOk level cfg.checkLevel = true
